@@ -4,6 +4,7 @@
 //	setprobe set  <dir> <keyhex> <valhex>            fileStorage.Set
 //	setprobe save <dir> <namehex> <pubhex> <privhex> database.SaveEntity
 //	setprobe cfg  <dir> <idhex> <versionhex> <hashhex>   the three consecutive Sets of Config.save (config.go)
+//	setprobe start <dir> <pin> <name>                hc.NewIPTransport on the directory (one switch accessory), not started
 package main
 
 import (
@@ -12,6 +13,8 @@ import (
 	"os"
 	"runtime"
 
+	"github.com/brutella/hc"
+	"github.com/brutella/hc/accessory"
 	"github.com/brutella/hc/db"
 	"github.com/brutella/hc/util"
 )
@@ -36,6 +39,14 @@ func main() {
 	if len(os.Args) < 4 {
 		fmt.Fprintln(os.Stderr, "usage: setprobe set|save|cfg <dir> …")
 		os.Exit(3)
+	}
+	if os.Args[1] == "start" && len(os.Args) == 5 {
+		sw := accessory.NewSwitch(accessory.Info{Name: os.Args[4]})
+		if _, err := hc.NewIPTransport(hc.Config{StoragePath: os.Args[2], Pin: os.Args[3]}, sw.Accessory); err != nil {
+			fmt.Fprintln(os.Stderr, "setprobe:", err)
+			os.Exit(1)
+		}
+		return
 	}
 	st, err := util.NewFileStorage(os.Args[2])
 	if err != nil {
